@@ -181,6 +181,18 @@ func intrinsic(ex *Exec, st *State, site ssa.Instruction, fn *ssa.Function, args
 		return ex.goroutineQuery(st, "Live", concreteStrArg(args[0], name))
 	case "BlockedIn":
 		return ex.goroutineQuery(st, "BlockedIn", concreteStrArg(args[0], name))
+	case "RegisterWatcher":
+		iv, ok := args[0].(*IfaceV)
+		if !ok {
+			panic(unsupported("RegisterWatcher needs a channel"))
+		}
+		ex.WatcherChan = iv.V
+		if len(args) > 1 {
+			if dv, ok := args[1].(*IfaceV); ok {
+				ex.WatcherDone = dv.V
+			}
+		}
+		return nil
 	case "Attempts":
 		return bv64(1)
 	case "Jitter":
@@ -338,6 +350,36 @@ func registerStubs(ex *Exec) {
 				return smt.ZExt(el[0].(*smt.Term), 64)
 			})
 		})
+	}
+	// fsnotify: the watcher hands out the event channel registered by the harness; Add always succeeds; Close ends
+	// the event stream (as the library's reader goroutine does on shutdown)
+	S["github.com/fsnotify/fsnotify.NewWatcher"] = func(ex *Exec, st *State, site ssa.Instruction, fn *ssa.Function, args []Value) Value {
+		if ex.WatcherChan == nil {
+			panic(unsupported("fsnotify.NewWatcher without verifrt.RegisterWatcher"))
+		}
+		wt := fn.Signature.Results().At(0).Type().(*types.Pointer).Elem()
+		w := ex.zero(wt).(*StructV)
+		f := append([]Value(nil), w.F...)
+		f[0] = ex.WatcherChan
+		id := ex.newObj(st, &StructV{F: f})
+		return &TupleV{E: []Value{&PtrV{Obj: id}, Nil}}
+	}
+	S["(*github.com/fsnotify/fsnotify.Watcher).Add"] = func(ex *Exec, st *State, site ssa.Instruction, fn *ssa.Function, args []Value) Value {
+		return Nil
+	}
+	S["(*github.com/fsnotify/fsnotify.Watcher).Close"] = func(ex *Exec, st *State, site ssa.Instruction, fn *ssa.Function, args []Value) Value {
+		_ = ex.load(st, site, args[0].(*PtrV))
+		// Close asks the library's reader goroutine (played by the harness) to stop: it closes the done channel;
+		// the reader then closes Events
+		ex.withChoice(st, ex.WatcherDone, func(st *State, ch Value) Value {
+			cv := ch.(*ChanV)
+			cc := ex.get(st, cv.Obj).(*ChanC)
+			n := *cc
+			n.Closed = smt.True
+			st.heap[cv.Obj] = &n
+			return nil
+		})
+		return Nil
 	}
 	registerTomlStubs(ex)
 	registerStringStubs(ex)
